@@ -97,7 +97,7 @@ def run_tlc(module, cfg, workers=4, timeout=900, env=None, xmx="6g", dfs=False, 
             tags=("REPLAY", "CASE", "REJECTED", "USED"), name=None):
     """Runs TLC on spec/<module>.tla with config file cfg (path).  Raises ToolError on crashes/timeouts."""
     name = name or (module + "-" + os.path.basename(cfg))
-    meta = workdir("tlc-" + name)
+    meta = workdir("tlc-%s-%d" % (name, os.getpid()))   # per process: several checks may validate the same pool seed at the same time
     opts = "-Xss1g -Xmx%s -XX:+UseParallelGC" % xmx
     if dfs:
         opts += " -Dtlc2.tool.queue.IStateQueue=StateDeque"
